@@ -243,6 +243,7 @@ def run_c06(ctx):
     cases = spec_cases(ctx, r, max_interps=12 if q else 60)
     rc = random_cases(ctx, 300 if q else 4000, REGIONS + ["prefixed_compound"], max_box=128, prefix=0.2)
     for c in rc: c["max_interps"] = 12 if q else 40
+    rc += [dict(c, max_interps=12) for c in narrow_min_cases(ctx)]
     cases += rc
     ctx.pmap(drivers.drv_partial, _stamp(cases, "drv_partial"))
     if not q: repo_test_events(ctx, ['evaluate'])
@@ -301,6 +302,11 @@ def adversarial_handmade():
         out.append(_R("All", _R("Any", B1, x), _R("Any", B2, y)))
         out.append(_R("All", B1, _R("Any", _R("All", B2, x), y)))
         out.append(_R("All", _R("Not", _R("AtLeast", a, b, c, v=-v1 + 1, s=1, id="B")), _R("Not", _R("AtLeast", a, b, c, v=-v2 + 1, s=1, id="B"))))
+    # an id defined twice below different parents with equal child ids, the definitions differing one level further down
+    for K1, K2 in ((_R("Any", a, b, id="K"), _R("All", a, b, id="K")), (_R("Any", a, b, id="K"), _R("Any", a, c, id="K")),
+                   (_R("AtLeast", a, b, c, v=2, s=1, id="K"), _R("AtLeast", a, b, c, v=3, s=1, id="K"))):
+        out.append(_R("All", _R("Any", _R("Any", K1, x, id="B"), y), _R("Any", _R("Any", K2, x, id="B"), LEAF("z"))))
+        out.append(_R("All", _R("Any", K1, x, id="B"), _R("Any", _R("Any", K2, x, id="B"), y)))
     # generated-id coincidence: children "ab","c" and "a","bc" concatenate to the same id
     out.append(_R("All", _R("Any", _R("Any", LEAF("ab"), c), x), _R("Any", _R("Any", a, LEAF("bc")), y)))
     out.append(_R("All", _R("Any", LEAF("ab"), c), _R("Any", a, LEAF("bc"))))
@@ -376,6 +382,20 @@ def serial_cases(ctx, inv, small=False):
         for f in gen.features(rr): ctx.region(f)
         cases.append({"recipe": rr, "src": "random", "leaf_str": bool(n % 2)})
         n += 1
+    # explicit ids that look like generated ones; XNor over three and more members with sub-propositions (the order of its two halves
+    # follows generated ids: several leaf names); a defaulted group whose only other alternative is a named sub-proposition
+    a, b, c = LEAF("a"), LEAF("b"), LEAF("c")
+    hm = [_R("All", _R("Any", a, b, id="VARIANT_A"), c, id="VARX"), _R("Any", _R("All", a, b, id="VAR1"), _R("Not", _R("Any", a, c, id="VARb")))]
+    for n1, n2, n3, n4 in (("a", "b", "c", "d"), ("k", "l", "m", "n"), ("p", "q", "r", "s"), ("x", "y", "z", "w"), ("e", "f", "g", "h"), ("u", "v", "i", "j")):
+        hm.append(_R("XNor", _R("Any", LEAF(n1), LEAF(n2)), LEAF(n3), LEAF(n4)))
+        hm.append(_R("XNor", _R("All", LEAF(n1), LEAF(n2)), _R("Any", LEAF(n3), LEAF(n4)), LEAF(n1), id="XN"))
+        hm.append(_R("XNor", LEAF(n1), LEAF(n2), _R("AtLeast", LEAF(n3), LEAF(n4), LEAF(n1), v=2, s=1)))
+        for grp in ("ccAny", "ccXor"):
+            hm.append(dict(_cc(grp, LEAF(n1), _R("All", LEAF(n2), LEAF(n3), id="BC")), d=n1))
+            hm.append(_cc("Cfg", dict(_cc(grp, LEAF(n1), _R("All", LEAF(n2), LEAF(n3), id="BC"), id="X"), d=n1), id="cfg"))
+            hm.append(_cc("Cfg", dict(_cc(grp, LEAF(n1), _R("Any", LEAF(n2), LEAF(n3))), d=n1), _R("Imply", LEAF(n4), _R("Any", LEAF(n2), LEAF(n3)))))
+    cases += [{"recipe": r_, "src": "handmade"} for r_ in hm]
+    ctx.region("explicit_id_like_generated")
     return cases
 
 def run_c16(ctx):
@@ -578,7 +598,7 @@ def run_c20(ctx):
         d = {i: rng.choice([0, 0, 5, -2, 1]) for i in keys}
         if any(v == 0 for v in d.values()): ctx.region("explicit_zero")
         if len(ids) >= 4: ctx.region("vars>=4")
-        cases.append({"vars": vs, "dict": d, "list": lst, "bits": [rng.randint(0, 1) for _ in range(3)], "src": "random"})
+        cases.append({"vars": vs, "dict": d, "list": lst, "bits": [rng.choice([0, 1, 1, 0, 2, -1]) for _ in range(3)], "src": "random"})
     ctx.pmap(drivers.drv_bridge, _stamp(cases, "drv_bridge"))
     ctx.validate()
 
@@ -608,12 +628,13 @@ def run_c13(ctx):
         if nr >= 3: ctx.region("rows>=3")
         kind = rng.choice(["2d0", "2d1", "2d0", "flat", "3d0"])
         if kind == "flat":
-            cases.append({"x": x[0] if k % 2 else x, "kind": "flat", "src": "random"})
+            cases.append({"x": x[0] if k % 2 else x, "kind": "flat", "src": "random", "layout": ["C", "T", "F"][(k // 2) % 3]})
+            if (k // 2) % 3: ctx.region("non_C_layout")
         elif kind == "3d0":
             ctx.region("3d")
             cases.append({"x": [x] + [arr(nr, nc) for _ in range(rng.randint(1, 2))], "kind": "3d0", "src": "random"})
         else:
-            cases.append({"x": x, "kind": kind, "src": "random"})
+            cases.append({"x": x, "kind": kind, "src": "random", "layout": ["C", "C", "T", "F"][k % 4]})
     # priorities beyond 2^53 that differ by less than a float ulp (the results must still fit in 64 bits)
     for k in range(60 if q else 600):
         nr, nc = rng.randint(1, 3), rng.randint(2, 5)
@@ -665,6 +686,11 @@ def cfg_cases(ctx, inv, quick_prios=3):
     for lo, hi in ((1, 3), (-2, 1), (2, 2)):
         rr = _cc("Cfg", _R("AtLeast", LEAF("n", lo, hi), LEAF("b"), id="R", v=2, s=1), _cc("ccAny", LEAF("a"), LEAF("b"), LEAF("c"), d="a", id="X"), id="cfg")
         cases.append({"recipe": rr, "src": "handmade", "prios_list": [[{}], [{"b": 1}], [{"c": 2, "n": 1}, {"a": -1}], [{"X": 1}]]})
+    # the only other alternative of a defaulted group is a sub-proposition that another rule uses as well
+    for g in (_R("All", LEAF("p"), LEAF("q"), LEAF("r"), id="G"), _R("Any", LEAF("p"), LEAF("q"), id="G"), _R("All", LEAF("p"), LEAF("q"))):
+        for grp in ("ccAny", "ccXor"):
+            rr = _cc("Cfg", dict(_cc(grp, LEAF("a"), g, id="X"), d="a"), _R("Imply", LEAF("x"), g, id="I"), _R("Any", LEAF("x"), LEAF("y"), id="J"), id="cfg")
+            cases.append({"recipe": rr, "src": "handmade", "prios_list": [[{}], [{"x": 1}], [{"y": 1, "x": -1}], [{"a": -1}, {"p": 1}]]})
     # defaulted groups below a plain rule (All / Any / Imply), built directly and loaded from their JSON document
     for top in ("All", "Any"):
         for grp, dflt in (("ccAny", "a"), ("ccXor", "b"), ("ccAny", "c")):
@@ -935,6 +961,8 @@ def run_c18(ctx):
     rules = (R_ if not q else R_[:3] + [R_[4]]) + [S_, _R("All", S_, LEAF("q"), id="T")]      # R_[4] re-uses the id of an existing top-level rule
     rules += [_R("Any", LEAF("p"), LEAF("q"), id="n"), _R("Any", LEAF("p"), LEAF("r"), id="c")]      # rules named like top-level items
     rules += [_R("Xor", LEAF("p"), LEAF("q"), id="P1"), _R("All", LEAF("p"), LEAF("q"), id="P1")]      # alternative variants of the rule named P1
+    rules += [_R("AtMost", LEAF("p"), LEAF("q"), v=2, id="T1"), _R("AtLeast", LEAF("p"), LEAF("r"), v=0, s=1, id="T2"),   # rules that always hold
+              _R("AtMost", LEAF("a"), LEAF("b"), v=3)]
     states = api_histories(ctx, "API_add", pairs, ["add", "cfg_poly"] if q else ["add", "cfg_poly", "select"], 3, rules)
     cases = history_cases(ctx, states, [cat["CfgD"], cat["CfgG"], CfgN, CfgI, CfgA])
     cases = [c for c in cases if any(x["op"] == "add" for x in c["calls"])]
